@@ -70,7 +70,11 @@ class RuleContext:
 
     # -- registration
     def rule(self, rid: str, text: str):
-        self.rule_texts[rid] = " ".join(text.split())
+        if self.rule_alias is not None:
+            if rid not in self.rule_alias:
+                return
+            rid = self.rule_alias[rid]
+        self.rule_texts.setdefault(rid, " ".join(text.split()))
 
     def assume(self, text: str):
         if text not in self.assumptions:
@@ -140,6 +144,15 @@ class RuleContext:
             if os.environ.get("SA_DEBUG"):
                 traceback.print_exc()
         return None
+
+    def aliased(self, alias: dict, fn, *args, **kwargs):
+        """Run a rule group of another property; its obligations are reported under this property's rule ids."""
+        prev = self.rule_alias
+        self.rule_alias = dict(alias)
+        try:
+            return self.guard(fn, *args, **kwargs)
+        finally:
+            self.rule_alias = prev
 
     def require(self, cond, msg: str):
         if not cond:
